@@ -90,6 +90,55 @@ theorem C19_data_header_layout (pr : K → Tok K) (rnd : ℕ → K → K) (d : H
     render pr rnd Gen.Writer.dataHeader d = Spec.dataHeader pr rnd d :=
   render_data_eq pr rnd d
 
+/-! ## the molecule-centre reader -/
+
+/-- **Centre reader.**  For every trajectory of orthogonal frames (any number of frames, style x / xs / xu, atom lines in
+any order, any extra columns, 2-D or 3-D) and EVERY type map, `read_lammps_centertype_wrapper` returns one snapshot per
+frame, each equal to `Spec.center`: exactly the atoms whose type is a key of the map, relabelled by its values, in
+increasing id order, with their Cartesian positions (wrapped for x, `lo + s·L` for xs, verbatim for xu). -/
+theorem C19_centertype (pr : K → Tok K) (hpr : ∀ x, Impl.toFloat (pr x) = .ok x) (mol : ℤ → Option ℤ)
+    (nd : ℕ) (hnd : nd = 2 ∨ nd = 3) (fs : List (FrameSpec K))
+    (hwf : ∀ f ∈ fs, Lammps.Spec.WF f ∧ f.tric = false) :
+    Impl.readCenterAll nd mol (Lammps.Spec.emit pr nd fs) = .ok (fs.map (Spec.center nd mol)) :=
+  loopFuel_emit pr nd _ _ (fun f => Lammps.Spec.WF f ∧ f.tric = false)
+    (fun f rest h => readCenter_emitFrame pr hpr f h.1 rest mol nd hnd h.2) rfl fs hwf _ (Nat.lt_succ_self _)
+
+/-- one call consumes exactly its frame -/
+theorem C19_centertype_frame (pr : K → Tok K) (hpr : ∀ x, Impl.toFloat (pr x) = .ok x) (mol : ℤ → Option ℤ)
+    (nd : ℕ) (hnd : nd = 2 ∨ nd = 3) (f : FrameSpec K) (hwf : Lammps.Spec.WF f) (htr : f.tric = false) (rest : Lines K) :
+    Impl.readCenter nd mol (Lammps.Spec.emitFrame pr nd f ++ rest) = .ok (some (Spec.center nd mol f, rest)) :=
+  readCenter_emitFrame pr hpr f hwf rest mol nd hnd htr
+
+/-- what `Spec.center` selects: the kept ids are strictly increasing, an id is kept iff it is an id of the frame whose
+atom has a type that is a key of the map, and entry `j` of the result carries the mapped type and the Cartesian position
+of the atom line with the `j`-th kept id -/
+theorem C19_centertype_exact (nd : ℕ) (mol : ℤ → Option ℤ) (f : FrameSpec K) :
+    (Spec.centerIds mol f).Pairwise (· < ·) ∧
+    (∀ k, k ∈ Spec.centerIds mol f ↔
+      k < f.atoms.length ∧ ∃ t, mol (Lammps.Spec.atId f.atoms k (·.type) 0) = some t) ∧
+    (Spec.center nd mol f).nparticle = (Spec.centerIds mol f).length ∧
+    (Spec.center nd mol f).ptype
+      = (Spec.centerIds mol f).map (fun k => (mol (Lammps.Spec.atId f.atoms k (·.type) 0)).getD 0) ∧
+    (Spec.center nd mol f).positions
+      = (Spec.centerIds mol f).map (fun k =>
+          Lammps.Spec.atId f.atoms k (fun a => (List.range nd).map (Lammps.Spec.cart nd f a)) (List.replicate nd 0)) := by
+  refine ⟨?_, ?_, rfl, rfl, rfl⟩
+  · exact List.Pairwise.filter _ List.pairwise_lt_range
+  · intro k
+    simp [Spec.centerIds, Option.isSome_iff_exists]
+
+/-- with a well-formed frame the kept atom is the unique line carrying that id, and its new type is the map's value -/
+theorem C19_centertype_relabel (mol : ℤ → Option ℤ) (f : FrameSpec K) (hwf : Lammps.Spec.WF f) (k : ℕ)
+    (hk : k ∈ Spec.centerIds mol f) :
+    ∃ a ∈ f.atoms, a.id = (k : ℤ) + 1 ∧ ∃ t, mol a.type = some t ∧
+      (mol (Lammps.Spec.atId f.atoms k (·.type) 0)).getD 0 = t := by
+  have h := ((C19_centertype_exact 2 mol f).2.1 k).mp hk
+  obtain ⟨hlt, t, ht⟩ := h
+  obtain ⟨a, ha, hid, hby⟩ := byId_some f hwf k hlt
+  refine ⟨a, ha, hid, t, ?_, ?_⟩
+  · simpa [Lammps.Spec.atId, hby] using ht
+  · rw [ht]; rfl
+
 /-! ## HOOMD frames -/
 
 /-- **GSD conversion.**  Every frame sequence whose first frame has the requested dimension is converted frame by
